@@ -13,24 +13,24 @@ if [ -z "$DEST" ]; then
   [ -n "$DEST" ] || DEST="$(grep -oE '(ast|parser|lexer|compiler|sourcemap|token|debug|test/integration)/[A-Za-z0-9_]+_test\.go' "$SRC/notes.md" | head -1)"
 fi
 [ -n "$DEST" ] || { echo "cannot tell where the demo goes; pass it as 4th argument"; exit 2; }
-WT="$(mktemp -d /tmp/xjs-cf.XXXXXX)"
+WT="$(mktemp -d /tmp/xjs-cf.XXXXXX)"; LOGD="$(mktemp -d /tmp/xjs-cflog.XXXXXX)"
 git -C /repo worktree add -q --detach "$WT" HEAD || exit 2
-trap 'git -C /repo worktree remove --force "$WT" 2>/dev/null; rm -rf "$WT"; git -C /repo worktree prune' EXIT
+trap 'git -C /repo worktree remove --force "$WT" 2>/dev/null; rm -rf "$WT" "$LOGD"; git -C /repo worktree prune' EXIT
 PKG="./$(dirname "$DEST")/"
 RUNPAT="$(grep -oE 'func (Test[A-Za-z0-9_]+)' "$SRC/$DEMO" | awk '{print $2}' | paste -sd'|')"
 cp "$SRC/$DEMO" "$WT/$DEST"
-( cd "$WT" && timeout 300 go test -vet=off -count=1 -run "^($RUNPAT)\$" "$PKG" >"$WT/.clean.log" 2>&1 ); CLEAN=$?
+( cd "$WT" && timeout 300 go test -vet=off -count=1 -run "^($RUNPAT)\$" "$PKG" >"$LOGD/clean.log" 2>&1 ); CLEAN=$?
 rm -f "$WT/$DEST"
 git -C "$WT" apply "$SRC/patch.diff" 2>/dev/null || git -C "$WT" apply -3 "$SRC/patch.diff" || { echo "RESULT $ID: patch does not apply"; exit 1; }
-git -C "$WT" diff HEAD > "$WT/.patch.rebased"   # the change expressed against the current HEAD (hook commit included)
-( cd "$WT" && go build ./... >"$WT/.build.log" 2>&1 ); BUILD=$?
-( cd "$WT" && timeout 600 go test -vet=off -count=1 ./... >"$WT/.suite.log" 2>&1 ); SUITE=$?
+git -C "$WT" add -A; git -C "$WT" diff --cached HEAD > "$LOGD/patch.rebased"; git -C "$WT" reset -q   # the change expressed against the current HEAD (hook commit included)
+( cd "$WT" && go build ./... >"$LOGD/build.log" 2>&1 ); BUILD=$?
+( cd "$WT" && timeout 600 go test -vet=off -count=1 ./... >"$LOGD/suite.log" 2>&1 ); SUITE=$?
 cp "$SRC/$DEMO" "$WT/$DEST"
-( cd "$WT" && timeout 300 go test -vet=off -count=1 -run "^($RUNPAT)\$" "$PKG" >"$WT/.mut.log" 2>&1 ); MUT=$?
+( cd "$WT" && timeout 300 go test -vet=off -count=1 -run "^($RUNPAT)\$" "$PKG" >"$LOGD/mut.log" 2>&1 ); MUT=$?
 echo "RESULT $ID: demo-on-clean=$CLEAN (want 0) build=$BUILD (want 0) suite=$SUITE (want 0) demo-with-change=$MUT (want !=0)"
 if [ $CLEAN -eq 0 ] && [ $BUILD -eq 0 ] && [ $SUITE -eq 0 ] && [ $MUT -ne 0 ]; then
   OUT="${VERIF_SEEDED_DIR:-/verif/seeded}/$ID"; mkdir -p "$OUT"
-  cp "$WT/.patch.rebased" "$OUT/patch.diff"; cp "$SRC/$DEMO" "$OUT/$DEMO"; cp "$SRC/notes.md" "$OUT/notes.md" 2>/dev/null
+  cp "$LOGD/patch.rebased" "$OUT/patch.diff"; cp "$SRC/$DEMO" "$OUT/$DEMO"; cp "$SRC/notes.md" "$OUT/notes.md" 2>/dev/null
   python3 - "$OUT" "$PROP" "$ID" "$DEST" "$RUNPAT" <<'PY'
 import json,sys,os
 out,prop,sid,dest,runpat=sys.argv[1:6]
@@ -44,6 +44,6 @@ json.dump(meta,open(os.path.join(out,'meta.json'),'w'),indent=1)
 PY
   echo "kept as $OUT"
 else
-  echo "--- clean demo log"; tail -15 "$WT/.clean.log"; echo "--- suite log"; tail -15 "$WT/.suite.log"; echo "--- demo with change"; tail -8 "$WT/.mut.log"
+  echo "--- clean demo log"; tail -15 "$LOGD/clean.log"; echo "--- suite log"; tail -15 "$LOGD/suite.log"; echo "--- demo with change"; tail -8 "$LOGD/mut.log"
   exit 1
 fi
